@@ -37,6 +37,11 @@ EvAdd(ev) ==
               /\ r.at = ev.at + 1
               /\ ev.n = Len(r.l)
               /\ ps' = [ps EXCEPT ![ev.id] = [list |-> r.l, last |-> r.at]]
+\* only logged by a repaired parser (proposed fix for BraceNoReset): braces re-initialise [s, end)
+EvClear(ev) ==
+  /\ ev.e = "initclear"
+  /\ ev.id \in DOMAIN ps
+  /\ ps' = [ps EXCEPT ![ev.id] = [list |-> SelectSeq(@.list, LAMBDA x : ~(x.s < ev.end /\ ev.s < x.e)), last |-> 0]]
 EvDone(ev) ==
   /\ ev.e = "initdone"
   /\ ev.id \in DOMAIN ps
@@ -47,7 +52,7 @@ EvDone(ev) ==
 TStep ==
   /\ l <= NT
   /\ l' = l + 1
-  /\ LET ev == Trace[l] IN EvReset(ev) \/ EvBegin(ev) \/ EvAdd(ev) \/ EvDone(ev)
+  /\ LET ev == Trace[l] IN EvReset(ev) \/ EvBegin(ev) \/ EvAdd(ev) \/ EvClear(ev) \/ EvDone(ev)
   /\ UNCHANGED vars
 
 TSpec == TInit /\ [][TStep]_<<tvars, vars>>
